@@ -418,7 +418,7 @@ def gen_C04(seed, tier):
     rng = random.Random(seed)
     cases = []
     orders = [0, 1, 2, 3] if tier == 'quick' else [0, 1, 2, 3, 4]
-    maxpos = 3 if tier == 'quick' else 4
+    maxpos = 5 if tier == 'quick' else 6
     for fam in ['unit', 'irregular', 'off+', 'off-']:
         for o in orders:
             tag = fam.replace('+', 'p').replace('-', 'm')
@@ -1131,7 +1131,7 @@ PROPS = {
               "cross-order assignment, chains of in-place updates, linearCombination over 1..6 splines; non-trivial = distinct "
               "arithmetic operations and operand constructions", exhaustive=True),
     'C04': _p(gen_C04, nontrivial_C04,
-              "orders 0..3 (quick) / 0..4 x Derivative<n>, n = 0..order+2, Position<n>, n = 0..3/4, identity, on grids at the "
+              "orders 0..3 (quick) / 0..4 x Derivative<n>, n = 0..order+2, Position<n>, n = 0..5/6, identity, on grids at the "
               "origin, irregular, offset by +1000 and -1000, whole-grid, sub-window, point-like and empty supports; direct "
               "transform calls on every interval; non-trivial = distinct Apply/Transform operations"),
     'C05': _p(gen_C05, nontrivial_C05,
